@@ -36,6 +36,7 @@ func runC06(c *harness.Ctx) {
 	realIsClient := t.Draw("role", 2) == 0
 	iat := t.Draw("iat", 3)
 	setBias(t.Draw("bias", 2) == 1)
+	steerPads(c, obfs4PadRanges...)
 	id := genObfs4Identity(c, iat)
 	rid := refIdentity(id)
 	link := c.Net.NewLink("c", "s")
